@@ -171,6 +171,9 @@ MatHolds(c) ==
       [] c = "SVD:reconstruct" -> (R.panic = "" /\ R.hasSvd /\ WellCond) => R.svdRecon <= TolWell
       [] c = "SVD:reconstruct-degenerate" -> (R.panic = "" /\ R.hasSvd /\ ~WellCond) =>
                                                 LET tol == IF Rn <= 3 THEN -6 ELSE -3 IN R.svdRecon <= tol /\ R.svdOrtho <= tol
+      \* the same matrix in other units (entries times 2^-30, 2^-24, 2^20): reconstruction relative to the unit, and
+      \* orthonormal factors
+      [] c = "SVD:scale-free" -> (R.panic = "" /\ R.hasSvd /\ WellCond) => R.svdScaled <= TolWell
       [] c = "SVD:orthonormal" -> (R.panic = "" /\ R.hasSvd /\ WellCond) => R.svdOrtho <= TolWell
       [] c = "SVD:invariants" -> (R.panic = "" /\ R.hasSvd /\ WellCond /\ R.svdRecon <= -9 /\ R.svdOrtho <= -9) =>
                                     (R.svdDiag <= -9 /\ R.svdPEx /\ R.svdP = <<Frob2(RM), Abs(RD)>>)
@@ -180,7 +183,7 @@ MatHolds(c) ==
       [] c = "CharPoly:exact" -> (R.panic = "" /\ R.hasChar) => (R.charEx /\ R.char = CharPoly(RM, Rn))
 MatClauses == {"panic", "Det:exact", "Inverse:adjugate", "Inverse:identity", "MulColumnInv:adjugate", "SVD:reconstruct",
                "SVD:reconstruct-degenerate",
-               "SVD:orthonormal", "SVD:invariants", "SVD:sorted", "Eigenvalues:charpoly", "CharPoly:exact"}
+               "SVD:scale-free", "SVD:orthonormal", "SVD:invariants", "SVD:sorted", "Eigenvalues:charpoly", "CharPoly:exact"}
 
 RotExpected == CASE R.sub = "rot2" -> QuarterTurns2(R.aux[2])
                  [] R.sub = "rot" /\ R.aux[1] <= 6 -> QuarterTurns(R.aux[1], R.aux[2])
